@@ -1,13 +1,18 @@
 #!/venv/bin/python
 """Confirm every candidate in /tmp/wt/* and keep it under /verif/seeded/<id>/ (patch.diff, demo.py, NOTES.md, meta.json)."""
 import json, os, shutil, subprocess, sys
-ids = sys.argv[1:] or [f"C{i:02d}" for i in range(1, 21)]
+root = "/tmp/wt"
+suffix = ""
+argv = sys.argv[1:]
+if argv and argv[0] == "--wave2":
+    root, suffix, argv = "/tmp/wt2", "_b", argv[1:]
+ids = argv or [f"C{i:02d}" for i in range(1, 21)]
 extra = {"C12": "C11,C12", "C02": "C02,C06", "C06": "C06,C02", "C01": "C01,C05,C15", "C05": "C05,C15", "C15": "C15", "C20": "C20,C05"}
 for pid in ids:
-    src = f"/tmp/wt/{pid}"
+    src = f"{root}/{pid}"
     if not os.path.exists(f"{src}/patch.diff"):
         print(pid, "no patch"); continue
-    r = subprocess.run(["/verif/tools/try_seed.py", pid, "--checks", extra.get(pid, pid)], capture_output=True, text=True)
+    r = subprocess.run(["/verif/tools/try_seed.py", pid, "--src", src, "--checks", extra.get(pid, pid)], capture_output=True, text=True)
     try:
         res = json.loads(r.stdout[r.stdout.index("{"):])
     except Exception:
@@ -16,7 +21,7 @@ for pid in ids:
     caught = [c for c, v in res["checks"].items() if v["exit"] == 1]
     print(pid, "confirmed" if ok else "NOT CONFIRMED", "caught by", caught, res.get("suite"))
     if ok:
-        dst = f"/verif/seeded/{pid}"
+        dst = f"/verif/seeded/{pid}{suffix}"
         os.makedirs(dst, exist_ok=True)
         for f in ("patch.diff", "demo.py", "NOTES.md"):
             if os.path.exists(f"{src}/{f}"):
